@@ -28,7 +28,8 @@ EMPTY_MESSAGE = [False]     # the failing converter raises an exception WITHOUT 
 
 
 def make_stub(eng, method):
-    """deterministic converter: fails exactly on inputs starting with 'y', otherwise returns '<' + input + '>'.
+    """deterministic converter: fails exactly on inputs starting with 'y', returns '' on inputs starting with 'z',
+    otherwise returns '<' + input + '>'.
     (Being a function of its input, any caching inside the middleware must be transparent.)"""
     def conv(I, W, self, args, kwargs):
         s = args[0]
@@ -37,6 +38,8 @@ def make_stub(eng, method):
         cs = chars(s)
         if len(cs) > 0 and I.truth(W, ch_eq(cs[0], "y")):
             raise PyRaise(ValueError() if EMPTY_MESSAGE[0] else RuntimeError("converter failed"))
+        if len(cs) > 0 and I.truth(W, ch_eq(cs[0], "z")):
+            return ""           # a successful conversion whose result is the empty string (e.g. decoding '{}')
         return mk(("<",) + cs + (">",))
     return Stub("converter", {method: conv})
 
@@ -102,7 +105,8 @@ def check(res, vals, inplace, E, shape="main"):
         if not is_strlike(got):
             return False
         wrapped = mk(("<",) + chars(vals[i]) + (">",))
-        return b_or(b_and(fails[i], E(got, vals[i])), b_and(b_not(fails[i]), E(got, wrapped)))
+        empties = b_and(True, ch_eq(chars(vals[i])[0], "z")) if len(chars(vals[i])) else False
+        return b_any([b_and(fails[i], E(got, vals[i])), b_all([b_not(fails[i]), b_not(empties), E(got, wrapped)]), b_and(empties, E(got, ""))])
     # untouched blocks
     conds.append(isinstance(p, M.Preamble) and E(p.value, vals[6]) and p.raw == "rawP" and p.start_line == 2)
     conds.append(isinstance(c, M.ExplicitComment) and c.comment == "cc" and c.raw == "rawC" and c.start_line == 4)
@@ -175,6 +179,8 @@ def native_replay(kind, vals, inplace, shape="main"):
                 raise TypeError("converter expects a string")
             if s.startswith("y"):
                 raise (ValueError() if EMPTY_MESSAGE[0] else RuntimeError("converter failed"))
+            if s.startswith("z"):
+                return ""
             return "<" + s + ">"
         unicode_to_latex = _do
         latex_to_text = _do
@@ -199,7 +205,8 @@ def task(kind, inplace, shape="main", empty_message=False):
     EMPTY_MESSAGE[0] = empty_message
     eng = Engine()
     rec = Recorder(eng)
-    vals = [eng.sym_str(f"v{i}_", 1, "xy") for i in range(8)]
+    # vals[0] (a field value in every shape) and vals[5] (the @string value) may also start with 'z': converted to ''
+    vals = [eng.sym_str(f"v{i}_", 1, "xyz" if i in (0, 5) else "xy") for i in range(8)]
     if shape == "main":
         # one text value of two characters (a failing value may hold '%'), one name-part string holding a blank
         vals[4] = mk(chars(eng.sym_str("v4_", 1, "xy")) + chars(eng.sym_str("v4b_", 1, "x%")))
@@ -406,7 +413,7 @@ def task_ctor_seq():
 def main():
     chk = Check("C18", __doc__)
     chk.bounds = {"library": "String, Preamble, Entry, ExplicitComment, ParsingFailedBlock; every text one symbolic character (in the main shape one text has a second character over x / % and one name-part string is two words joined by a blank); three entry shapes: main = (str, int, NameParts(first 1 word, last 2 words), str, list of ints, list of str); names-only = a single NameParts field with 5 strings over all four parts; dup-keys = note/title/note/year(int)/title with repeated field keys",
-                  "converter failure": "RuntimeError with a message, and (three extra tasks) ValueError() without any message", "converter": "a function of its input: raises on values starting with 'y', else returns '<'+input+'>' (values are symbolic over {x,y}, so all 2^6 failure patterns and all equal-value patterns occur)",
+                  "converter failure": "RuntimeError with a message, and (three extra tasks) ValueError() without any message", "converter": "a function of its input: raises on values starting with 'y', returns the empty string on values starting with 'z', else returns '<'+input+'>' (values are symbolic over {x,y} - one field value and the @string value over {x,y,z} - so all 2^6 failure patterns, all equal-value patterns and conversions to '' occur)",
                   "constructor sequences": "two default-built encoder and decoder middlewares in a row, keep_math / enclose_urls / keep_braced_groups / keep_math_mode each symbolic over {None, True, False}; the pylatexenc classes are recording stubs, the claim is about what bibtexparser hands to them (which rules, which options, no shared state)",
                   "options": "encoder / decoder middleware x allow_inplace_modification in {True, False}; custom converter vs. option conflicts in the constructors"}
     chk.assumptions = ["the pylatexenc conversion itself is a stub: what it returns is arbitrary, so the round-trip clause decode(encode(t)) == t is NOT claimed (not encodable within reach: third-party, table/regex driven)",
